@@ -320,11 +320,45 @@ pub fn run(tier: &Tier) -> i32 {
     if let Some((field, expected, got)) = res {
         rep.report(Viol { site: "cli ds0".into(), field, vars: vec![], got_val: None, expected, got, case: json!({"src": src, "stdout": out.out()}), weight: 0 });
     }
+    // the driver's own loading loop: layouts with consecutive and repeated SETs through the binary, the
+    // first bytes of every segment involved printed back
+    {
+        let sets = [0u16, 1, 0x0100, 0x0300, 0xF000, 0xFFFF];
+        let mut progs: Vec<Program> = Vec::new();
+        for a in sets {
+            for bseg in sets {
+                let d1 = DataDef::Str(Some("l1".into()), W::B, "first".into());
+                let d2 = DataDef::Val(Some("l2".into()), W::W, 0x4242);
+                for defs in [
+                    vec![DataDef::Set(a), DataDef::Set(bseg), d1.clone(), d2.clone()],
+                    vec![DataDef::Set(a), d1.clone(), DataDef::Set(bseg), d2.clone()],
+                    vec![d1.clone(), DataDef::Set(a), DataDef::Set(bseg), DataDef::Set(a), d2.clone()],
+                ] {
+                    let mut code = vec![b::label("start")];
+                    for seg in [0u16, a, bseg] {
+                        let base = seg as u32 * 16;
+                        code.push(b::print(PrintKind::MemRange(base, (base + 15).min(0xFFFFF))));
+                    }
+                    code.push(b::mov(b::r16("ax"), Opnd::Offset("l2".into())));
+                    code.push(b::print(PrintKind::Reg));
+                    progs.push(Program { data: defs, code });
+                }
+            }
+        }
+        let none = std::collections::HashMap::new();
+        progs.par_iter().for_each(|p| {
+            let (src, _, out, res) = cli_conformance(p, &none, &[], false, 1000);
+            c.add_exec(1);
+            if let Some((field, expected, got)) = res {
+                rep.report(Viol { site: "cli layout".into(), field, vars: vec![], got_val: None, expected, got, case: json!({"src": src, "stdin": "", "stdout": out.out()}), weight: src.len() as u64 });
+            }
+        });
+    }
     c.sample(json!({"cli_source": src}));
     c.sample(json!({"alphabet": alpha.iter().map(|d| join_toks(&data_toks(d)).chars().take(40).collect::<String>()).collect::<Vec<_>>()}));
     let mut cov = Coverage::default();
     cov.exhaustive = true;
-    cov.rule = format!("all sequences of 1..={} definitions over a {}-item alphabet (SET with 5 segment values incl. 0xF000/0xFFFF so that images wrap at 1 MB; DB/DW single values at the signed/unsigned extremes, zero arrays and value arrays with counts 0..65535, strings of length 0,1,2,17; about half of them labelled){}: the program is assembled by the real Preprocessor, loaded by the real DataParser, and the WHOLE 1 MB is compared with an independently computed image; every label is checked through the assembler's label map, through OFFSET in an instruction and through a load via the label operand with DS set to its segment; more than 64 KiB in one segment must be diagnosed (exactly 64 KiB: either). Plus, exhaustively per constant class: all 65536 SET values, all 384 DB values, all (quick: every third) DW values -32768..65535, array counts 0..32767 (quick: every fifth) for zero and value arrays, each behind one odd byte and followed by a labelled definition; and the overlay idiom (SET a, definitions, SET b [, SET a], labelled definitions) for all 49 pairs of 7 segment values incl. equal and overlapping ones. CLI: DS=0000 at start", maxlen, n, if tier.thorough { " plus all sequences of 4 over a third of the alphabet" } else { "" });
+    cov.rule = format!("all sequences of 1..={} definitions over a {}-item alphabet (SET with 5 segment values incl. 0xF000/0xFFFF so that images wrap at 1 MB; DB/DW single values at the signed/unsigned extremes, zero arrays and value arrays with counts 0..65535, strings of length 0,1,2,17; about half of them labelled){}: the program is assembled by the real Preprocessor, loaded by the real DataParser, and the WHOLE 1 MB is compared with an independently computed image; every label is checked through the assembler's label map, through OFFSET in an instruction and through a load via the label operand with DS set to its segment; more than 64 KiB in one segment must be diagnosed (exactly 64 KiB: either). Plus, exhaustively per constant class: all 65536 SET values, all 384 DB values, all (quick: every third) DW values -32768..65535, array counts 0..32767 (quick: every fifth) for zero and value arrays, each behind one odd byte and followed by a labelled definition; and the overlay idiom (SET a, definitions, SET b [, SET a], labelled definitions) for all 49 pairs of 7 segment values incl. equal and overlapping ones. CLI: DS=0000 at start; 108 layouts with consecutive / repeated / overlapping SETs run through the real binary (the driver has its own loading loop), the first 16 bytes of every segment involved and a label offset printed back", maxlen, n, if tier.thorough { " plus all sequences of 4 over a third of the alphabet" } else { "" });
     cov.bounds = json!({"alphabet": n, "max_len": if tier.thorough {4} else {3}, "exhaustive_constant_definitions": exhaustive_defs.load(Ordering::Relaxed), "loaded_and_compared": stats.0.load(Ordering::Relaxed), "diagnosed": stats.1.load(Ordering::Relaxed), "tier": tier.name()});
     cov.assumptions = common_assumptions();
     cov.cli_runs = CLI_RUNS.load(Ordering::Relaxed);
